@@ -42,6 +42,7 @@ Reject(inp) == ~Valid(inp) /\ UNCHANGED valvars
    wrong-width frame is accepted by validation, overwrites the memory, and whatever the detector
    does with it afterwards is undefined *)
 Dev_DFWidthSkip(inp) ==
+  /\ ~vcfg.univ        \* the univariate detectors refuse multi-column data themselves and restore the memory: the finding never shows there
   /\ inp.frame /\ cols = "-" /\ dim # -1 /\ inp.width # dim
   /\ broken' = TRUE /\ dim' = inp.width /\ cols' = inp.names
   /\ total' \in {total, total + 1} /\ UNCHANGED <<vcfg, accepted>>
